@@ -159,9 +159,12 @@ class Dec:
         self.le = le
         self.e = '<' if le else '>'
         self.p = pos
+        self.dirty = False      # some alignment padding byte was not zero
 
     def pad(self, a):
         while self.p % a:
+            if self.p < len(self.d) and self.d[self.p] != 0:
+                self.dirty = True
             self.p += 1
 
     def get(self, sig):
@@ -211,7 +214,7 @@ class Dec:
 
 
 class Msg:
-    __slots__ = ('le', 'type', 'flags', 'serial', 'fields', 'raw_fields', 'sig', 'body', 'nbytes', 'fds')
+    __slots__ = ('le', 'type', 'flags', 'serial', 'fields', 'raw_fields', 'sig', 'body', 'nbytes', 'fds', 'dirty')
 
     def f(self, code, default=None):
         return self.fields.get(code, default)
@@ -246,6 +249,7 @@ def parse_message(data):
     m.sig = m.fields.get(F_SIGNATURE, '')
     body = Dec(data[d.p:d.p + blen], le, 0)
     m.body = [body.get(s) for s in split_sig(m.sig)]
+    m.dirty = d.dirty or body.dirty or body.p != blen
     m.nbytes = d.p + blen
     m.fds = []
     return m
